@@ -237,9 +237,16 @@ pub fn render(p: &Program, deco: u64, spacing: u64, o: &Opts) -> Rendered {
                 if end < n && toks[end] == ";" {
                     end += 1;
                 }
-                let open = ["{$ifdef DEBUG}", "{$IFNDEF X}", "{$if Defined(A) and (B > 1)}", "(*$ifdef A*)", "(*$ifNdef Abc *)", "{$ifopt R+}"][r.gen_range(0..6)];
+                let open = ["{$ifdef DEBUG}", "{$IFNDEF X}", "{$if Defined(A) and (B > 1)}", "(*$ifdef A*)", "(*$ifNdef Abc *)", "{$ifopt R+}",
+                            "{$if CloseChar = '}'}", "(*$if Sep = '*)' *)"][r.gen_range(0..8)];
                 dir_before[*b].push(open.to_string());
-                dir_before[end].insert(0, if open.starts_with("{$if ") { ["{$ifend}", "(*$IfEnd*)"][r.gen_range(0..2)] } else { ["{$endif}", "{$endif}", "(*$endif*)", "(*$EndIf Debug *)"][r.gen_range(0..4)] }.to_string());
+                let expr = open.starts_with("{$if ") || open.starts_with("(*$if ");
+                dir_before[end].insert(0, if expr { ["{$ifend}", "(*$IfEnd*)"][r.gen_range(0..2)] } else { ["{$endif}", "{$endif}", "(*$endif*)", "(*$EndIf Debug *)"][r.gen_range(0..4)] }.to_string());
+                // now and then further (empty) branches whose expressions hide their own closing delimiter
+                if expr && r.gen_range(0..3) == 0 {
+                    dir_before[end].insert(0, ["{$else}", "(*$ELSE*)"][r.gen_range(0..2)].to_string());
+                    dir_before[end].insert(0, ["{$elseif Other = '}'}", "(*$ELSEIF x = '*)' *)", "{$elseif {$I v.inc} > 3}", "{$ElseIf Defined(B)}"][r.gen_range(0..4)].to_string());
+                }
                 taken_until = end;
             }
         }
@@ -546,7 +553,9 @@ impl Suite for Programs {
                 }
             })
         } else {
-            Value::Null
+            // the text does not scan to the tokens the generator wrote down (R4: no expectation is derived from it; but the
+            // case is counted, and reported where the scanner itself is under test)
+            json!({"not_as_intended": true, "intended": r.plain.len()})
         };
         Case { text: r.text, well_formed: ok, label: format!("gen#{pi}/v{vi}:{}", p.start), wrap_hint: None, meta }
     }
